@@ -268,6 +268,8 @@ fn body(c: &Case) -> Result<(), String> {
     // a private temp root so that leftovers of other processes do not matter
     let root = format!("/tmp/vcheck-c11-{}", std::process::id());
     let (fds0, maps0) = interpose::harness(|| {
+        // (process ids are recycled: make sure nothing of an earlier, aborted execution is left)
+        let _ = std::fs::remove_dir_all(&root);
         let _ = std::fs::create_dir_all(&root);
         (interpose::proc_fds(), interpose::shared_maps().len())
     });
